@@ -143,3 +143,13 @@ def model_verdicts(data, width, channels, block, thr, use_channel=None, guard=1e
             return None
         out.append(1 if db >= thr else 0)
     return out
+
+
+def random_bytes(rng, nsamples, width, channels, allow_bigger=True):
+    """random_pcm, and - for small sizes, where a wav image would not fit - one time in twelve a size bumped to the next
+    whole number of samples that can hold one.  -> bytes (len is a whole number of samples; may exceed nsamples)"""
+    bps = width * channels
+    if allow_bigger and nsamples * bps < 46 and rng.random() < 0.08:
+        nsamples = -(-rng.randint(46, 120) // bps)
+        return wav_image(rng, nsamples * bps)
+    return random_pcm(rng, nsamples, width, channels)
